@@ -1103,14 +1103,26 @@ func anchoredBody(s string) (body string, ok bool) {
 	return s[1 : len(s)-1], true
 }
 
+// parseCanonicalUint parses s only if it is the canonical decimal spelling of a
+// number: the text a community is rendered with never has leading zeros, signs
+// or blanks, so any other spelling matches no community as a regular expression
+// and must not be promoted to a numeric matcher.
+func parseCanonicalUint(s string, bits int) (uint64, bool) {
+	n, err := strconv.ParseUint(s, 10, bits)
+	if err != nil || strconv.FormatUint(n, 10) != s {
+		return 0, false
+	}
+	return n, true
+}
+
 func parseExactASColonLocal(body string, localBits int) (asn uint16, local uint32, ok bool) {
 	idx := strings.IndexByte(body, ':')
 	if idx <= 0 || idx != strings.LastIndexByte(body, ':') {
 		return 0, 0, false
 	}
-	asn64, err1 := strconv.ParseUint(body[:idx], 10, 16)
-	loc64, err2 := strconv.ParseUint(body[idx+1:], 10, localBits)
-	if err1 != nil || err2 != nil {
+	asn64, ok1 := parseCanonicalUint(body[:idx], 16)
+	loc64, ok2 := parseCanonicalUint(body[idx+1:], localBits)
+	if !ok1 || !ok2 {
 		return 0, 0, false
 	}
 	return uint16(asn64), uint32(loc64), true
@@ -1120,26 +1132,31 @@ func isWildcardASN(lhs string) bool {
 	return lhs == `[0-9]*` || lhs == `[0-9]+` || lhs == `\d*` || lhs == `\d+`
 }
 
+// isWildcardLocal reports whether everything after the first colon (the one that
+// follows the literal ASN) is a match-all local part, optionally anchored.
 func isWildcardLocal(s string) bool {
-	s = strings.TrimSuffix(s, "$")
-	return strings.HasSuffix(s, `:\d+`) || strings.HasSuffix(s, `:[0-9]+`) || strings.HasSuffix(s, `:.*`)
+	idx := strings.IndexByte(s, ':')
+	if idx < 0 {
+		return false
+	}
+	rhs := strings.TrimSuffix(s[idx+1:], "$")
+	return rhs == `\d+` || rhs == `[0-9]+` || rhs == `.*`
 }
 
 func parseLocalAdminSet(rhs string) (*localAdminBitmap, bool) {
-	rhs = strings.TrimSpace(rhs)
 	var locals []uint16
 	switch {
 	case strings.HasPrefix(rhs, "(") && strings.HasSuffix(rhs, ")"):
 		for _, tok := range strings.Split(rhs[1:len(rhs)-1], "|") {
-			n, err := strconv.ParseUint(strings.TrimSpace(tok), 10, 16)
-			if err != nil {
+			n, ok := parseCanonicalUint(tok, 16)
+			if !ok {
 				return nil, false
 			}
 			locals = append(locals, uint16(n))
 		}
 	default:
-		n, err := strconv.ParseUint(rhs, 10, 16)
-		if err != nil {
+		n, ok := parseCanonicalUint(rhs, 16)
+		if !ok {
 			return nil, false
 		}
 		locals = []uint16{uint16(n)}
@@ -1208,8 +1225,8 @@ func extractLiteralASN(s string) (uint16, bool) {
 	if idx <= 0 {
 		return 0, false
 	}
-	asn, err := strconv.ParseUint(s[start:start+idx], 10, 16)
-	return uint16(asn), err == nil
+	asn, ok := parseCanonicalUint(s[start:start+idx], 16)
+	return uint16(asn), ok
 }
 
 func compileCommunityMatcher(re *regexp.Regexp, listIndex int) communityMatcher {
